@@ -45,7 +45,15 @@ RULE = (
     "only change the input (N=2 with mixed lens / N=1 / N=2 swapped with lens=None / N=1 shorter "
     "with the initial state omitted), call again; every call must equal bit-for-bit the result of a "
     "FRESH object carrying the current settings and every element must equal its solo search under "
-    "those settings (held to both oracles). Distinct by construction; non-trivial = at least one element "
+    "those settings (held to both oracles). Larger instances (Oracle B of the same width + structural "
+    "invariants + batch == solo; Oracle A cannot enumerate them): V+1 in {32,16,7}, T in {16,20,24}, N=2 "
+    "with lens [T,T-3] plus both elements alone, widths {2,8}, no fusion / plain fusion beta .3 with the "
+    "table LM, 3 (thorough 8) seed-valued matrix pairs with a +4 peak per frame on labels that never "
+    "repeat back to back (hypotheses of 14..22 tokens), float32 and float64. Variants of one call that "
+    "must be bit-identical to the plain call (V in {1,2}, T=3, N=2, lens [3,1],[2,3],[3,3],[0,2], widths "
+    "{2,P+5}, none / plain .3 / mixture 1, every pool rotation): lens as int32, non-contiguous logits, "
+    "lens as a stride-0 view, logits requiring grad (no no_grad), torch.inference_mode, default dtype "
+    "float64. Distinct by construction; non-trivial = at least one element "
     "has a valid frame. states = distinct (V, frame, beam contents) reached; transitions = frames "
     "advanced by the implementation; traces = solo searches / advance runs matched prefix-by-prefix "
     "against Oracle B."
@@ -62,6 +70,10 @@ ASSUMPTIONS = [
     "Oracle B keeps only positive-mass candidates (zero-mass prefixes are inert in the recursion)",
     "the table LM used for fusion is trusted harness code; softmax of the reference is math.exp based",
     "TorchScript-compiled and CUDA variants are not explored",
+    "larger instances: masses compared relatively (1e-4 float32 / 1e-9 float64), near-tie = relative gap <= "
+    "5e-4 / 1e-7 at a pruning decision (float64 runs had none); the LM table is indexed by the state code "
+    "modulo 4093; CTCPrefixSearch has no blank/eos argument (blank is always the last index), so there is no "
+    "negative spelling to try; float64 logits are a full dtype dimension of the small-scope part",
     "object reuse covers the public attributes width, beta, valid_mixture, lm (CTCPrefixSearch has no other "
     "public setting); the blank index is fixed by the API; reassigned values are legal constructor values; "
     "equality with a fresh object is exact (same arithmetic on the same inputs, single thread)",
@@ -815,8 +827,235 @@ def run_reuse_shard(ctx, spec, tier, seed):
 
 
 # ----------------------------------------------------------------------------------------------
+# larger instances (beyond what Oracle A can enumerate): Oracle B + structural invariants + batch == solo
+LARGE_TOL = {"float32": (1e-30, 1e-4), "float64": (1e-200, 1e-9)}  # masses get tiny: relative comparison
+LARGE_TIE = {"float32": (1e-30, 5e-4), "float64": (1e-200, 1e-7)}
+LARGE_NCODES = 4093
+
+
+def gen_large(V, T, seed, idx):
+    """seed-valued scores in [-1,1] with a moderately peaky (+4) symbol per frame: labels that never repeat
+    back to back (so the best hypotheses grow by one token per frame), blank on every tenth frame"""
+    rng = random.Random(f"c05-large-{seed}-{V}-{T}-{idx}")
+    m = [[round(rng.uniform(-1, 1), 4) for _ in range(V + 1)] for _ in range(T)]
+    lab = rng.randrange(V)
+    for t, r in enumerate(m):
+        if t % 10 == 9:
+            r[V] += 4.0
+        else:
+            lab = (lab + 1 + rng.randrange(V - 1)) % V
+            r[lab] += 4.0
+    return m
+
+
+def run_large(ctx, Vp1, T, width, cfg, dtype_name, seed, tier, rep=0):
+    V = Vp1 - 1
+    dtype = DTYPES[dtype_name]
+    tol, tie = LARGE_TOL[dtype_name], LARGE_TIE[dtype_name]
+    kind, beta = cfg[0], float(cfg[1])
+    lens = [T, T - 3]
+    case = {"kind": "large", "Vp1": Vp1, "T": T, "width": width, "cfg": [kind, beta], "dtype": dtype_name,
+            "seed": seed, "tier": tier, "lens": lens, "rep": rep}
+    sig0 = {"api": "CTCPrefixSearch", "scope": "large", "fusion": kind if beta else "none"}
+    mats_t = [torch.tensor(gen_large(V, T, seed, 2 * rep + i), dtype=dtype) for i in range(2)]
+    mats_l = [m.tolist() for m in mats_t]
+    offs = [1, 2]
+    lm = None
+    if kind != "none":
+        rng = random.Random(f"c05-large-lm-{seed}-{V}")
+        table = torch.tensor([[round(rng.uniform(-2, 2), 2) for _ in range(V)] for _ in range(LARGE_NCODES)], dtype=dtype)
+        bias = torch.tensor([[0.0] * V] + [[round(rng.uniform(-1, 1), 2) for _ in range(V)] for _ in range(NBIAS - 1)],
+                            dtype=dtype)
+        lm = TableLM(V, table, bias)
+        table_l, bias_l = table.tolist(), bias.tolist()
+    search = CTCPrefixSearch(width) if lm is None else CTCPrefixSearch(width, beta, lm, valid_mixture=(kind == "mixture"))
+    cache = {}
+
+    def reference(n, l):
+        probs = O.frame_probs(mats_l[n][:l])
+
+        def lm_probs(prefix, off=offs[n]):
+            k = (prefix, off)
+            if k not in cache:
+                row = table_l[O.encode(prefix, V) % LARGE_NCODES]
+                cache[k] = O.softmax([a + b for a, b in zip(row, bias_l[off])])
+            return cache[k]
+
+        ext = O.make_ext(probs, V, None if kind == "none" else kind, beta, lm_probs)
+        return O.prefix_beam(probs, V, width, ext, tie[0], tie[1])
+
+    def call(logits, lens_t, ns):
+        args = [logits, lens_t]
+        if lm is not None:
+            args.append({"off": torch.tensor([offs[n] for n in ns], dtype=torch.long)})
+        with torch.no_grad():
+            return search(*args)
+
+    views = {}
+    runs = [("batch", [0, 1], lens), ("solo0", [0], [lens[0]]), ("solo1", [1], [lens[1]])]
+    for tag, ns, ls in runs:
+        ctx.case(1, 1)
+        ctx.transitions += sum(ls)
+        ctx.count("large_searches")
+        Tt = max(ls)
+        logits = torch.stack([mats_t[n][:Tt] for n in ns], 1) if tag != "batch" else torch.stack(mats_t, 1)
+        rcase = dict(case, run=tag)
+        try:
+            y, yl, pr = call(logits, torch.tensor(ls), ns)
+        except Exception as e:
+            ctx.violation(dict(sig0, symptom="raises", type=type(e).__name__), rcase, {"error": str(e)[-400:]})
+            continue
+        if not (y.dim() == 3 and tuple(y.shape[1:]) == (len(ns), width) and y.size(0) <= logits.size(0)
+                and tuple(yl.shape) == (len(ns), width) and tuple(pr.shape) == (len(ns), width) and pr.dtype == dtype):
+            ctx.violation(dict(sig0, symptom="wrong-shape"), rcase, {"y": list(y.shape), "probs": list(pr.shape)})
+            continue
+        for j, n in enumerate(ns):
+            ecase = dict(rcase, element=n)
+            pos, tail, ok = structure(ctx, dict(sig0, width_exceeds_live=False), ecase, make_view(y, yl, pr, j), V, ls[j])
+            if not ok:
+                continue
+            views[(tag, n)] = (pos, tail)
+            B = reference(n, ls[j])
+            if B["tie"]:
+                ctx.count("near_tie_downgraded")
+                continue
+            ref = {s: a + b for s, (a, b) in B["beam"].items() if a + b > 0}
+            bad = None
+            for s_, m_ in ref.items():
+                if s_ not in pos:
+                    bad = ("missing", s_)
+                    break
+                if not close(pos[s_], m_, tol):
+                    bad = ("mass", s_)
+                    break
+            if bad is None:
+                extra = [s_ for s_ in pos if s_ not in ref]
+                if extra:
+                    bad = ("extra", extra[0])
+            if bad:
+                ctx.violation(dict(sig0, symptom="differs-from-reference-beam", what=bad[0], pruned=B["pruned"]), ecase,
+                              {"prefix": bad[1], "reference": fmt(ref), "observed": fmt(pos)})
+            else:
+                ctx.traces += 1
+                ctx.state(["large", V, ls[j], sorted((s_, float("%.6g" % m_)) for s_, m_ in pos.items())])
+                ctx.outcome([sorted(pos), tail])
+    for n in (0, 1):
+        a, b = views.get(("batch", n)), views.get((f"solo{n}", n))
+        if a is None or b is None:
+            continue
+        if set(a[0]) != set(b[0]) or any(not close(a[0][s_], b[0][s_], (tol[0], 1e-5 if dtype_name == "float32" else 1e-11))
+                                         for s_ in a[0]) or a[1] != b[1]:
+            ctx.violation(dict(sig0, symptom="differs-from-solo", batched=True), dict(case, element=n),
+                          {"solo": fmt(b[0]), "batched": fmt(a[0]), "solo_tail": b[1], "batched_tail": a[1]})
+        else:
+            ctx.count("batch_elements_equal_to_solo")
+
+
+def run_large_shard(ctx, spec, tier, seed):
+    for T in (16, 20, 24):
+        for width in (2, 8):
+            for cfg in (("none", 0.0), ("plain", 0.3)):
+                for rep in range(3 if tier != "thorough" else 8):
+                    run_large(ctx, spec["Vp1"], T, width, cfg, spec["dtype"], seed, tier, rep)
+
+
+# ----------------------------------------------------------------------------------------------
+# alias spellings of the same input, autograd, global torch state: bit-identical results required
+def _variant_call(env, width, logits, lens, names, how):
+    search = env.search(width)
+    args = [logits, lens]
+    if env.lm is not None:
+        args.append({"off": torch.tensor([env.off[n] for n in names], dtype=torch.long)})
+    if how == "lens-int32":
+        args[1] = lens.to(torch.int32)
+    elif how == "logits-noncontiguous":
+        args[0] = logits.transpose(0, 1).contiguous().transpose(0, 1)
+        assert not args[0].is_contiguous() or logits.size(0) <= 1 or logits.size(1) <= 1
+    elif how == "logits-expanded-lens":
+        args[1] = lens.unsqueeze(1).expand(-1, 3)[:, 1]  # stride-0 view of the same values
+    if how == "requires-grad":
+        args[0] = logits.clone().requires_grad_(True)
+        out = search(*args)
+        return tuple(o.detach() for o in out)
+    if how == "inference-mode":
+        with torch.inference_mode():
+            out = search(*[a.clone() if isinstance(a, torch.Tensor) else a for a in args])
+        return tuple(o.clone() for o in out)
+    if how == "default-dtype-float64":
+        old = torch.get_default_dtype()
+        torch.set_default_dtype(torch.float64)
+        try:
+            with torch.no_grad():
+                return search(*args)
+        finally:
+            torch.set_default_dtype(old)
+    with torch.no_grad():
+        return search(*args)
+
+
+VARIANTS = ["lens-int32", "logits-noncontiguous", "logits-expanded-lens", "requires-grad", "inference-mode",
+            "default-dtype-float64"]
+
+
+def run_variants(ctx, env, T, names, lens, width, tier):
+    case = {"kind": "variants", "V": env.V, "dtype": env.dtype_name, "cfg": list(env.cfg), "seed": env.seed,
+            "tier": tier, "T": T, "mats": list(names), "lens": list(lens), "width": width}
+    sig0 = {"api": "CTCPrefixSearch", "fusion": env.cfg[0] if env.cfg[1] else "none", "batched": True}
+    logits = torch.stack([env.mat_t[n][:T] for n in names], 1)
+    lens_t = torch.tensor(lens)
+    ctx.case(1, 1)
+    try:
+        base = _variant_call(env, width, logits, lens_t, names, "plain")
+    except Exception as e:
+        ctx.violation(dict(sig0, symptom="raises", type=type(e).__name__), case, {"error": str(e)[-400:]})
+        return
+    y, yl, pr = base
+    if tuple(pr.shape) != (len(names), width) or pr.dtype != env.dtype:
+        ctx.violation(dict(sig0, symptom="wrong-shape"), case, {"probs": list(pr.shape), "dtype": str(pr.dtype)})
+        return
+    check_elements(ctx, env, sig0, case, y, yl, pr, names, lens, width, tier)
+    for how in VARIANTS:
+        vcase = dict(case, variant=how)
+        vsig = dict(sig0, variant=how)
+        ctx.case(1, 1)
+        ctx.transitions += sum(lens)
+        ctx.count("variant_searches")
+        try:
+            got = _variant_call(env, width, logits, lens_t, names, how)
+        except Exception as e:
+            ctx.violation(dict(vsig, symptom="raises", type=type(e).__name__), vcase, {"error": str(e)[-400:]})
+            continue
+        diff = "dtype" if got[2].dtype != pr.dtype else _same_result(got, base)
+        if diff:
+            ctx.violation(dict(vsig, symptom="variant-differs-from-plain-call", what=diff), vcase,
+                          {"variant_probs": got[2].tolist(), "plain_probs": pr.tolist(), "dtype": str(got[2].dtype)})
+        else:
+            ctx.count("variant_calls_equal_to_plain_call")
+
+
+def run_variants_shard(ctx, spec, tier, seed):
+    V, dtype = spec["V"], spec["dtype"]
+    names = pool_names(tier)
+    P = len(names)
+    T = 3
+    for cfg in (("none", 0.0), ("plain", 0.3), ("mixture", 1.0)):
+        env = Env(V, cfg, dtype, seed, names)
+        for r in range(P):
+            mats = [names[r], names[(r + 1) % P]]
+            for lens in ([T, 1], [2, T], [T, T], [0, 2]):
+                for w in (2, env.n_reachable(T) + 5):
+                    run_variants(ctx, env, T, mats, lens, w, tier)
+
+
+# ----------------------------------------------------------------------------------------------
 def shards(tier, seed):
     out = []
+    for Vp1 in (32, 16, 7):
+        for dt in DTYPES:
+            out.append({"kind": "large", "Vp1": Vp1, "dtype": dt})
+    for V in (1, 2):
+        for dt in DTYPES:
+            out.append({"kind": "variants", "V": V, "dtype": dt})
     for V in (1, 2):
         for dt in DTYPES:
             out.append({"kind": "advance", "V": V, "dtype": dt})
@@ -841,6 +1080,10 @@ def run_shard(spec, tier, seed):
         run_search_shard(ctx, spec, tier, seed)
     elif spec["kind"] == "reuse":
         run_reuse_shard(ctx, spec, tier, seed)
+    elif spec["kind"] == "large":
+        run_large_shard(ctx, spec, tier, seed)
+    elif spec["kind"] == "variants":
+        run_variants_shard(ctx, spec, tier, seed)
     else:
         run_advance_shard(ctx, spec, tier, seed)
     return ctx
@@ -855,6 +1098,13 @@ def replay(case):
                   case.get("poison", False))
     elif case["kind"] == "advance":
         run_advance(ctx, case["V"], case["dtype"], case["seed"], case["mats"], case["schedule"], case["extmode"])
+    elif case["kind"] == "large":
+        run_large(ctx, case["Vp1"], case["T"], case["width"], tuple(case["cfg"]), case["dtype"], case["seed"],
+                  case.get("tier", "quick"), case.get("rep", 0))
+    elif case["kind"] == "variants":
+        tier = case.get("tier", "quick")
+        env = Env(case["V"], tuple(case["cfg"]), case["dtype"], case["seed"], pool_names(tier))
+        run_variants(ctx, env, case["T"], case["mats"], case["lens"], case["width"], tier)
     elif case["kind"] == "reuse":
         tier = case.get("tier", "quick")
         R = ReuseEnvs(case["V"], case["dtype"], case["seed"], pool_names(tier))
